@@ -129,6 +129,8 @@ INPUT_OPS = ("cn_peer", "cn_eof", "cn_rderr", "cn_wrerr", "cn_budget", "cn_iws",
              "cn_dropconn", "cn_takeping")
 
 
+# operations on the handles of a stream (the ping handle is not one: it reports BrokenPipe by design)
+STREAM_HANDLE_OPS = ("cn_resp", "cn_read", "cn_rtrailers", "cn_pollcap", "cn_pollreset", "cn_info", "cn_data")
 AFTER_END_OPS = ("cn_resp", "cn_read", "cn_rtrailers", "cn_pollcap", "cn_pollreset", "cn_ready", "cn_pollpong", "cn_info")
 
 
@@ -145,6 +147,7 @@ def mon_conn(ops, impl):
     gone, gone_st, last_st_before = False, "", ""
     peer_goaway, result_seen = "-", False
     cap_wait, sendbuf = {}, 409600
+    io_raised = []
     for i, (o, a) in enumerate(zip(ops, impl)):
         w = o.split(" ")
         if w[0] == "cn_new":
@@ -160,6 +163,7 @@ def mon_conn(ops, impl):
             gone = False
             peer_goaway, result_seen = "-", False
             cap_wait, sendbuf = {}, 409600
+            io_raised = []
             for kv in w[2:]:
                 if kv.startswith("sendbuf="):
                     sendbuf = int(kv[8:])
@@ -170,6 +174,14 @@ def mon_conn(ops, impl):
             for kv in w[2:]:
                 if kv.startswith("reset_max="):
                     reset_max = kv[10:]
+        # C17: a handle that reports an I/O error reports the kind the transport raised
+        # (a read error is met by the next poll; a write error only if something is written: take it from the poll's result)
+        if w[0] == "cn_rderr" and len(w) > 1:
+            io_raised.append(w[1] if w[1] in ("BrokenPipe", "ConnectionReset", "UnexpectedEof", "TimedOut") else "Other")
+        if w[0] == "cn_poll" and _f(a, "r=").startswith("err:io:Some("):
+            io_raised.append(_f(a, "r=")[12:-1])
+        if w[0].startswith("cn_") and w[0] in STREAM_HANDLE_OPS and _f(a, "r=").startswith("err:io:Some("):
+            out.append((i, f"mon_cn ioerr {','.join(io_raised) if io_raised else '-'} {_f(a, 'r=')[12:-1]}"))
         if w[0].startswith("cn_") and gone and w[0] in AFTER_END_OPS:
             # C07: the connection object has been dropped; nothing may stay pending
             # (with the state the stream was in when the connection object was dropped)
